@@ -229,7 +229,10 @@ def find_impls(src, masked, ty, trait=None):
         tr_name = re.sub(r'<.*$', '', tr).strip() if tr else None
         if tgt_name != ty:
             continue
-        if (trait or None) != tr_name:
+        if trait and '<' in trait:
+            if ''.join(trait.split()) != ''.join((tr or '').split()):
+                continue
+        elif (trait or None) != tr_name:
             continue
         res.append((header, j, match_close(masked, j)))
     return res
